@@ -1,11 +1,11 @@
 SPECIFICATION Spec
 CONSTANTS
   Routers = {"P", "L"}
-  Ops = {"Authorize", "Login", "Callback", "CodeExchange"}
-  MaxReq = 2
-  MaxCode = 1
-  MaxAT = 2
-  MaxDev = 0
+  Ops = {"DeviceAuthorize", "Approve", "Deny", "ExpireDevice", "Poll"}
+  MaxReq = 0
+  MaxCode = 0
+  MaxAT = 3
+  MaxDev = 3
   MaxSteps = 99
   Seeded = FALSE
   Vary = {"post", "refresh"}
